@@ -40,7 +40,8 @@ check("C01", "rocq-core", "proof",
       "if it is a delete (payload invariant: every store write of every handler under every storage outcome copies a request's bytes; "
       "fetched documents copy the peer's). The pre-fix acceptance rule is refuted (lagging node serves a deleted "
       "document). Model tied to the code by 2-4 real in-process nodes (hx-cluster): named schedules + random schedules, compared after every "
-      "event, with the convergence oracle (ids, bytes, stamps) at quiescence.",
+      "event, with the convergence oracle (ids, bytes, stamps) at quiescence; includes exchanges racing with writes on the polled node and "
+      "exchanges whose storage writes fail.",
       "Trusted: Coq kernel, models Orswot/Actor/Cluster.v, extraction + driver, the Rust executor and the in-process transport / wall-clock hooks. "
       "Events of the trace are atomic handler executions (a node restarting in the middle of a request is C07's theorem, not part of this "
       "trace); storage calls inside the trace succeed (failures: C02). Chitchat, timers and the distributor's batching loop are not modelled.")
@@ -91,8 +92,9 @@ check("C06", "rocq-core", "proof",
       "failure stating (acknowledged, selected) with acknowledged < selected; on Ok at least `required level` distinct other nodes acknowledged "
       "(given the selection facts proved in C15); whatever the result, the mutation or a newer one for the same id is in the STORE of the issuer "
       "and of every acknowledging replica, and stays there through every later event; after a failure the mutation reaches any node with the next "
-      "batch carrying it. Tied to lib.rs/client.rs/consistency_impl.rs by the real ReplicatedStoreHandle with the real selector on 2-4 in-process "
-      "nodes: all levels x all operation kinds x all subsets of unreachable replicas (hx-cluster focus=c06).",
+      "batch carrying it. Tied to lib.rs/client.rs/consistency_impl.rs/distributor.rs by the real ReplicatedStoreHandle with the real selector "
+      "and the real task distributor on 2-4 in-process nodes: all levels x all operation kinds x all subsets of unreachable replicas, links "
+      "restored, batching interval elapsed (hx-cluster focus=c06), and random distributor schedules.",
       "Trusted: as C01. Selection properties are premises here (C15). One data centre in the executor's clusters. The 2 s selection cache and RPC "
       "timeouts are runtime behaviour outside the model.")
 check("C07", "rocq-core", "proof",
@@ -101,7 +103,8 @@ check("C07", "rocq-core", "proof",
       "after every request history and every stop between requests the rebuilt set shows what the running set showed (acknowledged mutations "
       "survive); for a stop in the middle of a request (after the storage write, any outcome) the restarted node shows what the store holds; "
       "the restarted node satisfies the hypotheses of the convergence theorems. Tied to group.rs/actor.rs by restarts and mid-request kills of "
-      "the real KeyspaceGroup on the same store (hx-actor).",
+      "the real KeyspaceGroup on the same store (hx-actor) and by the same histories on a SQLite file and an LMDB directory with the database "
+      "really closed and reopened at every restart (hx-restart).",
       "Trusted: as C02. Durability of an acknowledged write (SQLite WAL/synchronous=normal, LMDB commit, OS) is outside the model: a returned "
       "write is assumed to be in the store; persistent backends' reopen behaviour is C17's subject.")
 check("C08", "rocq-core", "proof",
@@ -163,10 +166,12 @@ check("C14", "rocq-rpclife", "other",
 check("C15", "rocq-selector", "proof",
       "Theorems in coq/selector/Properties/C15.v for all layouts, all cursor values (hence all histories), all levels and all RNG choices: "
       "selections are duplicate-free, exclude the local node, stay inside the membership of the last update, have >= required nodes (exactly n for "
-      "One/Two/Three), and NotEnoughNodes only when too few other nodes exist; the actor draws from the last set_nodes only. Model tied to "
-      "nodes_selector.rs by hx-selector (exhaustive small layouts x 3-step histories, actor update pairs, random).",
-      "Count clauses assume the local node is listed under its own DC and total_nodes = member count (true in the actor). Cached actor answers: "
-      "count clause proved for fresh selections only. The 2 s cache is abstracted to expiry events; usize arithmetic as truncated nat. Trusted: Coq "
+      "One/Two/Three), and NotEnoughNodes only when too few other nodes exist; the actor draws from the last set_nodes only and every answer "
+      "of the actor, fresh or cached, satisfies the count clauses for the membership of the last update. Model tied to nodes_selector.rs and "
+      "to the layout construction in watch_membership_changes by hx-selector (exhaustive small layouts x 3-step histories, actor update "
+      "pairs, memberships handed to the real watcher, random).",
+      "Count clauses assume the local node is listed under its own DC and total_nodes = member count (what the membership watcher must hand "
+      "over; checked by the executor's watcher cases). The 2 s cache is abstracted to expiry events; usize arithmetic as truncated nat. Trusted: Coq "
       "kernel, model Selector.v, extraction + driver, Rust executor.")
 check("C16", "rocq-membership", "proof",
       "Theorems in coq/membership/Properties/C16.v, for all snapshot sequences with unique ids, all subscription points and all poll placements: "
